@@ -24,6 +24,7 @@ import (
 
 	"github.com/ryogrid/SamehadaDB/lib/common"
 	"github.com/ryogrid/SamehadaDB/lib/samehada"
+	"github.com/ryogrid/SamehadaDB/lib/storage/access"
 )
 
 func init() { subcommands["c12"] = runC12 }
@@ -39,7 +40,11 @@ func runC12(args []string, in *bufio.Scanner, out *bufio.Writer) {
 	clients, calls, groups, rpg := int(atoi64(args[1])), int(atoi64(args[2])), int(atoi64(args[3])), int(atoi64(args[4]))
 	seed, nins, tmo := atoi64(args[5]), int(atoi64(args[6])), atoi64(args[7])
 	common.TempSuppressOnMemStorage = true
-	db := samehada.NewSamehadaDB(dir+"/db", 4000)
+	memKB := 4000
+	if v := os.Getenv("VERIF_C12_MEMKB"); v != "" {
+		memKB = int(atoi64(v))
+	}
+	db := samehada.NewSamehadaDB(dir+"/db", memKB)
 	db.ExecuteSQL("CREATE TABLE acct(k int, g int, v int);")
 	db.ExecuteSQL("CREATE TABLE ins(ky int, c int);")
 	for g := 0; g < groups; g++ {
@@ -104,8 +109,34 @@ func runC12(args []string, in *bufio.Scanner, out *bufio.Writer) {
 			}
 		}(c)
 	}
+	stopBg := int32(0)
+	if os.Getenv("VERIF_C12_BG") != "" {
+		// checkpoints and statistics updates running next to the clients (C19)
+		go func() {
+			for atomic.LoadInt32(&stopBg) == 0 {
+				db.ForceCheckpointingForTestcase()
+				time.Sleep(15 * time.Millisecond)
+			}
+		}()
+		go func() {
+			shi := db.GetSamehadaInstance()
+			cat := db.GetCatalogForTesting()
+			for atomic.LoadInt32(&stopBg) == 0 {
+				for _, tm := range cat.GetAllTables() {
+					txn := shi.GetTransactionManager().Begin(nil)
+					tm.GetStatistics().Update(tm, txn)
+					if txn.GetState() == access.ABORTED {
+						shi.GetTransactionManager().Abort(cat, txn)
+					} else {
+						shi.GetTransactionManager().Commit(cat, txn)
+					}
+				}
+				time.Sleep(25 * time.Millisecond)
+			}
+		}()
+	}
 	fin := make(chan struct{})
-	go func() { wg.Wait(); close(fin) }()
+	go func() { wg.Wait(); atomic.StoreInt32(&stopBg, 1); close(fin) }()
 	hung := false
 	select {
 	case <-fin:
